@@ -179,6 +179,9 @@ type httpFaultSpec struct {
 	// diagnostics of the gun that read or rewrite the request and the response on the way
 	Trace, Dump bool
 	AnswLog     string // "", all, warning, error
+	// NamedDown: the target is given by name and refuses the connection the gun makes when it is built (the pre-resolve
+	// of the dns-cache option fails): the gun keeps the name and every later dial goes through the DNS-caching dialer
+	NamedDown bool
 }
 
 type httpFaultOutcome struct {
@@ -259,6 +262,9 @@ func genHTTPFaultSpec(r *R, faults bool) httpFaultSpec {
 		}
 		sp.Behaviours = append(sp.Behaviours, bh)
 	}
+	if faults && sp.Gun == "http" && !sp.SSL && f.Draw(8) == 0 {
+		sp.NamedDown = true
+	}
 	if faults {
 		sp.ConnFaults = []string{"", "", "", "refuse-some", "dial-timeout-some", "partition-short", "partition-long"}[f.Draw(7)]
 		if sp.Gun == "connect" && f.Draw(3) == 0 {
@@ -275,7 +281,7 @@ func (sp httpFaultSpec) describe() map[string]any {
 		bs = append(bs, fmt.Sprintf("%s/%d", b.Kind, b.Status))
 	}
 	return map[string]any{"entries": sp.Entries, "passes": sp.Passes, "instances": sp.Inst, "gun": sp.Gun, "auto_tag": sp.AutoTag, "uri_elements": sp.URIElems, "no_tag_only": sp.NoTagOnly,
-		"keep_alive": sp.KeepAlive, "tags": sp.Tags, "paths": sp.Paths, "methods": sp.Methods, "peer": bs, "conn_faults": sp.ConnFaults, "format": sp.Format, "latency": sp.Lat.String(), "chunk": sp.Chunk, "follow_redirects": sp.FollowRedirects, "ssl": sp.SSL, "connect_ssl": sp.ConnectSSL, "tls_hang_every_third_conn": sp.TLSHang, "httptrace": fmt.Sprintf("trace=%v dump=%v", sp.Trace, sp.Dump), "answlog": sp.AnswLog}
+		"keep_alive": sp.KeepAlive, "tags": sp.Tags, "paths": sp.Paths, "methods": sp.Methods, "peer": bs, "conn_faults": sp.ConnFaults, "format": sp.Format, "latency": sp.Lat.String(), "chunk": sp.Chunk, "follow_redirects": sp.FollowRedirects, "ssl": sp.SSL, "connect_ssl": sp.ConnectSSL, "tls_hang_every_third_conn": sp.TLSHang, "named_target_down_at_start": sp.NamedDown, "httptrace": fmt.Sprintf("trace=%v dump=%v", sp.Trace, sp.Dump), "answlog": sp.AnswLog}
 }
 
 func runHTTPFaults(r *R, sp httpFaultSpec) *httpFaultOutcome {
@@ -309,6 +315,10 @@ func runHTTPFaults(r *R, sp httpFaultSpec) *httpFaultOutcome {
 	typ := map[string]string{"uri": "uri", "json": "http/json"}[sp.Format]
 	ammo := map[string]interface{}{"type": typ, "file": "/ammo/ammo.txt", "passes": sp.Passes}
 	target := "10.0.0.7:8080"
+	if sp.NamedDown {
+		target = "tgt.example:8080"
+		r.Note("named-target-down-when-the-gun-is-built")
+	}
 	gun := map[string]interface{}{"type": sp.Gun, "target": target, "disable-keep-alives": !sp.KeepAlive, "response-header-timeout": "2s",
 		"dial":     map[string]interface{}{"timeout": "1s"},
 		"auto-tag": map[string]interface{}{"enabled": sp.AutoTag, "uri-elements": sp.URIElems, "no-tag-only": sp.NoTagOnly}}
@@ -344,6 +354,9 @@ func runHTTPFaults(r *R, sp httpFaultSpec) *httpFaultOutcome {
 			nw.Plan = func(idx int, addr string) simnet.ConnPlan {
 				p := simnet.NoPlan()
 				p.ChunkC2S, p.ChunkS2C = sp.Chunk, sp.Chunk*2
+				if sp.NamedDown && idx == 0 {
+					p.Refuse = true // (the connect of netutil.LookupReachable while the gun is configured)
+				}
 				switch sp.ConnFaults {
 				case "refuse-some":
 					p.Refuse = idx%3 == 1
